@@ -26,14 +26,11 @@ local notation "ISZ" => Memory.ISIZE_MAX
 
 /-! ## residual failures that remain -/
 
-/-- what is left of `Resid`: the EOFCREATE action (legacy-only model) and the fuel -/
-def Resid3 (e : Err) : Prop :=
-  e = .panic "unsupported: Action.eofCreate (EOF frames are not modelled)" ∨ e = .outOfFuel
+/-- what is left of `Resid`: the fuel (legacy code never hands out the EOFCREATE action: EOFCREATE stops at its
+`require_eof!`) -/
+def Resid3 (e : Err) : Prop := e = .outOfFuel
 
-theorem Resid3.resid {e : Err} (h : Resid3 e) : Resid e := by
-  rcases h with h | h
-  · exact Or.inr (Or.inr (Or.inr (Or.inl h)))
-  · exact Or.inr (Or.inr (Or.inr (Or.inr h)))
+theorem Resid3.resid {e : Err} (h : Resid3 e) : Resid e := Or.inr (Or.inr (Or.inr (Or.inr h)))
 
 def Tot3 {α} (x : R α) (P : α → Prop) : Prop :=
   match x with
@@ -141,7 +138,7 @@ structure MF : Prop where
   /-- calldata / initcode is a slice of the memory, hence a Rust `Bytes` -/
   inB : ∀ (s : Interp.IState) (d : Interp.Done) a s', IInv s →
     (Interp.step s = .pure d ∨ ∃ op k resp, Interp.step s = .host op k ∧ d = k resp) → d = .action a s' →
-    dataLen a ≤ ISZ
+    dataLen a ≤ ISZ ∧ ∀ i, a ≠ .eofCreate i
   answerCodes : ∀ he (w w1 : World) op resp, answer he w op = .ok (resp, w1) → StoreEq w w1
   frameCodes : ∀ cfg (w w' : World) a mem fr, makeFrame journalOps cfg w a mem = .ok (fr, w') →
     StoreOk w → dataLen a ≤ ISZ → StoreEq w w'
@@ -340,7 +337,8 @@ theorem tot3_frameEnd (mf : MF) {cfg : Cfg} {top : JFrame} {rest : List JFrame} 
 
 /-! ## an action -/
 
-theorem tot3_makeFrame {cfg : Cfg} {w : World} (h : WOk w) (a : Interp.Action) (mem : Memory.SharedMemory) :
+theorem tot3_makeFrame {cfg : Cfg} {w : World} (h : WOk w) (a : Interp.Action) (mem : Memory.SharedMemory)
+    (hne : ∀ i, a ≠ .eofCreate i) :
     Tot3 (makeFrame journalOps cfg w a mem) (fun p => FOut w p.2 p.1 ∧ FrAddr p.2 p.1) := by
   unfold makeFrame
   cases a with
@@ -352,7 +350,7 @@ theorem tot3_makeFrame {cfg : Cfg} {w : World} (h : WOk w) (a : Interp.Action) (
     refine tot3_of_tot (tot_mono (tot_makeCreateFrame h cfg i mem) (fun p hp => ⟨hp.1, fun f hf a ha => ?_⟩))
     obtain ⟨a', hk, _, hl⟩ := hp.2 f hf
     rw [hk] at ha; cases ha; exact hl
-  | eofCreate i => exact tot3_resid (Or.inl rfl)
+  | eofCreate i => exact absurd rfl (hne i)
 
 theorem makeFrame_rgood {cfg : Cfg} {w w' : World} {a : Interp.Action} {mem : Memory.SharedMemory}
     {o : Interp.ChildResult} (h : makeFrame journalOps cfg w a mem = .ok (.result o, w')) : RGood o.result := by
@@ -376,7 +374,8 @@ theorem tot3_frameAction (mf : MF) {cfg : Cfg} (henv : Revm.Proofs.Interp.EnvOk 
     {rest : List JFrame} {a : Interp.Action} {s : Interp.IState} {w : World} (h : LI (top :: rest) w)
     (hs : IInv s) (hlc : s.mem.lastCheckpoint ≤ rest.length * FB) (hlink : Link s top.kind rest) (hrest : SOk rest)
     (hgas : imeas s + a.gasLimit + msum rest ≤ U64 - 2) (hr : Revm.Proofs.Interp.RetOk a (iclen s.mem))
-    (hdl : dataLen a ≤ ISZ) (hlen : rest.length + 1 ≤ CALL_STACK_LIMIT + 1) (hcodes : StoreOk w) :
+    (hdl : dataLen a ≤ ISZ) (hne : ∀ i, a ≠ .eofCreate i) (hlen : rest.length + 1 ≤ CALL_STACK_LIMIT + 1)
+    (hcodes : StoreOk w) :
     Tot3 (frameAction journalOps cfg top rest a s w) NInv3 := by
   unfold frameAction
   have h' := h.updTop s
@@ -388,7 +387,7 @@ theorem tot3_frameAction (mf : MF) {cfg : Cfg} (henv : Revm.Proofs.Interp.EnvOk 
     unfold FB at hbuf
     generalize rest.length = n at hbuf hlen
     omega
-  refine tot3_bind' (tot3_makeFrame h.ok a s.mem) (fun p heq hp => ?_)
+  refine tot3_bind' (tot3_makeFrame h.ok a s.mem hne) (fun p heq hp => ?_)
   obtain ⟨fr, w1⟩ := p
   obtain ⟨fo, fa⟩ := hp
   dsimp only at fo fa ⊢
@@ -430,7 +429,7 @@ theorem tot3_afterStep (mf : MF) {cfg : Cfg} (henv : Revm.Proofs.Interp.EnvOk cf
     {rest : List JFrame} {d : Interp.Done} {w : World} (h : LI (top :: rest) w) (hsi : SI (top :: rest) w)
     (hd : SDone top.interp d) (h2 : StepOk2 top.interp d)
     (hout : ∀ r out s', d = .halt r out s' → out.length ≤ s'.mem.buffer.length)
-    (hin : ∀ a s', d = .action a s' → dataLen a ≤ ISZ)
+    (hin : ∀ a s', d = .action a s' → dataLen a ≤ ISZ ∧ ∀ i, a ≠ .eofCreate i)
     (hlen : rest.length + 1 ≤ CALL_STACK_LIMIT + 1) :
     Tot3 (afterStep journalOps cfg top rest d w) NInv3 := by
   obtain ⟨ti, tlc, tlink, trest⟩ := hsi.sok
@@ -447,7 +446,7 @@ theorem tot3_afterStep (mf : MF) {cfg : Cfg} (henv : Revm.Proofs.Interp.EnvOk cf
       omega
   | action hi hm hr hc =>
     exact tot3_frameAction mf henv h hi (by rw [hc.1]; exact tlc) (link_ckEq tlink hc) trest (by omega) hr
-      (hin _ _ rfl) hlen hsi.codes
+      (hin _ _ rfl).1 (hin _ _ rfl).2 hlen hsi.codes
   | halt hm hw hc =>
     cases hd with
     | halt _ hrg =>
